@@ -57,17 +57,33 @@ CLAIMED = {
               "they share.")),
     "C05": dict(
         design_ref="DESIGN.md §4 C05",
-        text=("Bounded model checking of derived::cover — the one construction through which every cover "
-              "constructor builds its result — for EVERY valid base D-symbol of the given shape and EVERY "
-              "admissible sheet map: the result has sheets x base chambers, its operations lie over the base "
-              "operations on the prescribed sheets and are involutions, degrees are preserved, r is the true "
-              "orbit length, the cover is complete. 2 sheets over 1 chamber in dimension 2 (quick); 3 sheets, 2 "
-              "chambers, dimension 3 (thorough, stretch). PARTIAL: the sheet maps the individual constructors "
-              "compute (Traversal / fundamental group / coset tables), connectedness, orientedness, universal "
-              "cover and conjugacy-class counts are NOT decided."),
-        note=("Decided: the covering construction given an admissible sheet map. Not decided: everything specific "
-              "to oriented_cover / covers / subgroup_cover / finite_universal_cover / cover_for_table beyond "
-              "their common call of cover().")),
+        engine="gen5",
+        quick_cmd="python3 engine/gen5.py check --tier quick",
+        thorough_cmd="python3 engine/gen5.py check --tier thorough",
+        replay="python3 engine/gen5.py replay {path}",
+        technique=("two parts, one evidence file: (1) bounded symbolic execution of derived::cover (Kani codegen -> CBMC, "
+                   "engine kc) for every valid base symbol and every admissible sheet map; (2) covers() and "
+                   "oriented_cover() executed from the current tree on every 2D symbol of a bounded universe, with the "
+                   "counting clause decided by SMT (z3 QF_BV): unsat(exists a connected s-sheeted covering of the base "
+                   "that is isomorphic over the base to no listed cover); counterexamples replayed natively"),
+        text=("PARTIAL. (1) Bounded model checking of derived::cover — the one construction through which every cover "
+              "constructor builds its result — for EVERY valid base D-symbol of the given shape and EVERY admissible "
+              "sheet map: sheets x base chambers, operations lie over the base operations on the prescribed sheets and "
+              "are involutions, degrees preserved, r the true orbit length, complete (2 sheets over 1 chamber in "
+              "dimension 2 quick; 3 sheets, 2 chambers, dimension 3 thorough, stretch). (2) For every 2D symbol the "
+              "D-symbol generator yields on D-sets of at most 3 (thorough: 4) chambers — 98 (236) base symbols — the "
+              "real covers(B, 3) and oriented_cover(B) are run: every returned cover is complete, connected, its "
+              "projection commutes with every operation, preserves every degree and has equal fibres (ground); the "
+              "oriented cover is oriented with one sheet if B is oriented and two otherwise (ground); and the list of "
+              "covers has exactly one entry per class: the solver shows, over ALL symbolic sheet maps, that every "
+              "connected s-sheeted covering of B (s <= 3) is isomorphic over B to a listed cover, and no two listed "
+              "covers are isomorphic over B. NOT decided: subgroup_cover / finite_universal_cover beyond what they "
+              "share with covers() (cover_for_table, cover; coset_table is the C11 check), 'the universal cover has a "
+              "trivial fundamental group', 3D symbols, larger bases / more sheets."),
+        note=("The counting clause is stated through covering-space theory (conjugacy classes of subgroups of index s of "
+              "the orbifold group = connected s-sheeted coverings up to isomorphism over the base), so it does not use "
+              "the crate's fundamental group or coset enumeration as an oracle. Base symbols are enumerated (the checked "
+              "output of the generators of C06 / C07), not symbolic; the solver's for-all is over sheet maps.")),
     "C06": dict(
         design_ref="DESIGN.md §4 C06",
         engine="gen6",
@@ -238,7 +254,7 @@ def main():
             "engine": c.get("engine", "kc"),
             "level_claimed": {"category": "model_checking", "text": c["text"],
                               "design_ref": c["design_ref"]},
-            "level_note": c["note"] + ("" if c.get("engine") else LEVEL_NOTE_COMMON),
+            "level_note": c["note"] + ("" if (c.get("engine") and pid != "C05") else LEVEL_NOTE_COMMON),
             "technique": c.get("technique", TECH),
         })
     na = dict(NOT_APPLICABLE)
@@ -260,7 +276,7 @@ def main():
         "engines": [{
             "name": "kc",
             "path": "engine/kc.py",
-            "serves_properties": sorted(k for k in CLAIMED if not CLAIMED[k].get("engine")),
+            "serves_properties": sorted(k for k in CLAIMED if not CLAIMED[k].get("engine") or k == "C05"),
             "kind_free_text": "Kani 0.68 code generation of the real crate + own goto-cc/goto-instrument link "
                               "against a fixed-block allocator model + CBMC 6.11 (CaDiCaL / z3), witness "
                               "extraction and native replay",
@@ -270,6 +286,13 @@ def main():
             "serves_properties": ["C06"],
             "kind_free_text": "native run of the input-free generator from the current tree + SMT-LIB (QF_BV) queries over "
                               "the universe of D-sets and over bijections, z3 with cvc5 cross-check, native replay",
+        }, {
+            "name": "gen5",
+            "path": "engine/gen5.py",
+            "serves_properties": ["C05"],
+            "kind_free_text": "runs kc on harness/c05_cover.rs (symbolic execution of derived::cover) and, natively, covers() / "
+                              "oriented_cover() on every 2D symbol of a bounded universe with SMT-LIB (QF_BV) completeness "
+                              "queries over all sheet maps; one evidence file",
         }, {
             "name": "gen7",
             "path": "engine/gen7.py",
